@@ -71,7 +71,11 @@ def g_formula(draw):
     p = gen.gmm_params(draw, C, F, allow_zero_floor=True, kmax=gen.choice(draw, [30.0, 1e3, 1e6]))
     n = gen.integer(draw, 1, 30 if gen.big() else 12)
     X, kind = gen.data_from(draw, p, n)
-    c = {"p": p, "X": X, "kind": kind, "order": gen.choice(draw, ["floors_first", "floors_last", "floors_after_a_likelihood"])}
+    how = gen.presentation(draw)
+    if how == "int":
+        X = gen.integral(X)
+    c = {"p": p, "X": X, "kind": kind, "order": gen.choice(draw, ["floors_first", "floors_last", "floors_after_a_likelihood"]),
+         "how": how}
     if gen.choice(draw, [False, True]) and p["floor_kind"] not in ("default", "zero"):
         # some variances are handed over BELOW their floor: the machine must clamp them (and normalise accordingly)
         r = gen.rng(draw)
@@ -97,13 +101,15 @@ def c_formula(ctx, case):
              "clamped-by-floor" if "raw_variances" in case else None)
     want_lw = ref.gmm_log_weighted(X, p["weights"], p["means"], p["variances"])
     want = logsumexp(want_lw, axis=0)
-    got = g.log_likelihood(X)
-    got_lw = g.log_weighted_likelihood(X)
+    Xarg = sut.present(X, case.get("how", "plain"))
+    ctx.event("input:" + case.get("how", "plain"))
+    got = np.asarray(g.log_likelihood(Xarg))
+    got_lw = np.asarray(g.log_weighted_likelihood(Xarg))
     ctx.finite(got, "log_likelihood")
     ctx.close(got, want, "log_likelihood", rtol=1e-10, atol=1e-9)
     ctx.close(got_lw, want_lw, "log_weighted_likelihood", rtol=1e-10, atol=1e-9)
     ctx.close(logsumexp(np.asarray(got_lw), axis=0), got, "logsumexp(weighted)==ll", rtol=1e-12, atol=1e-10)
-    st = g.acc_stats(X)
+    st = g.acc_stats(Xarg)
     ctx.close(st.log_likelihood, want.sum(), "stats.log_likelihood", rtol=1e-10, atol=1e-9 * len(X))
     ctx.check(got.shape == (X.shape[0],), "log_likelihood shape %s" % (got.shape,), "shape")
     tail = float(np.abs(want).max())
